@@ -7,6 +7,7 @@ class table, fault plan and fuel.
 import DTML.Render
 import DTML.Props.C08
 import DTML.GenRender
+import DTML.GenRaise
 set_option linter.unusedVariables false
 namespace DTML.Props.C14
 open DTML.Render
@@ -362,6 +363,15 @@ theorem raise_class_by_expr (env : Env) (fuel : Nat) (cls c m : Text) (e : Expr)
   unfold raiseClass
   simp only [h]
 
+/-- by an expression that raises: the class named like the tag's `__name__` (the text of the expression) when there is
+one, else InvalidErrorTypeExpression -/
+theorem raise_class_expr_raises (env : Env) (fuel : Nat) (cls : Text) (e : Expr) (st st' : St) (x : Exc)
+    (h : evalExpr env fuel e st = (.raise x, st')) :
+    raiseClass env (fuel + 1) cls (some e) st =
+      (some (if (env.classes.lookup cls).isSome then cls else "InvalidErrorTypeExpression".toList), st') := by
+  unfold raiseClass
+  simp only [h]
+
 /-! #### the hypotheses are satisfiable -/
 
 section Example
@@ -475,5 +485,76 @@ theorem gen_return_is_model (env : Env) (fuel : Nat) (src : Src) (st : St) :
   simp only [GenRender.returnGen, renderBlk]
   cases evalSrc env fuel src st with
   | mk r st' => cases r <;> rfl
+
+/-! ### dtml-raise of the model is `Raise.render` of the source
+
+`GenRaise.raiseGen` (with `raiseStage1Gen`: which class, `raiseStage2Gen`: which message) is regenerated on every run from
+`Raise.render` in /repo, statement by statement (harness/trans_raise.py): `expr is None` -> `convertExceptionType(self.__name__)`
+with the `RuntimeError` default, else `expr.eval(md)` inside `try … except Exception:` with the class of that name or
+`InvalidErrorTypeExpression`; then the section with `except DTReturn: raise` / `except Exception: v = 'Invalid Error Value'`;
+the test in front of `upgradeException`; `raise t(v)`.  It computes what the interpreter does on `Blk.raise_` - the case
+`raise_raises`, `return_through_raise`, `raise_class_by_name` / `raise_class_by_expr` above are stated about. -/
+
+private theorem raise_tail (env : Env) (f : Nat) (cls : Text) (ce : Option Expr) (body : List Blk) (st0 : St) (c : Text) (m : Text) :
+    (match GenRaise.raiseStage2Gen env f cls ce body st0 with
+     | (.ok v, st) =>
+       if !((GenRaise.isType (.exc c m) && GenRaise.isSubclass (.exc c m) "BaseException".toList)) then
+         (match GenRaise.upgradeException (.exc c m) v with
+          | .ok (t', v') => GenRaise.raiseCall t' v' st
+          | .error ex => (.raise ex, st))
+       else GenRaise.raiseCall (.exc c m) v st
+     | (.raise ex, st) => (.raise ex, st)
+     | (.ret rv, st) => (.ret rv, st)
+     | (.oom, st) => (.oom, st)) =
+    (match renderJoined env (f + 1) body st0 with
+     | (.ok p, st1) => (.raise ⟨c, ustr (valOfPiece p)⟩, st1)
+     | (.ret v, st1) => (.ret v, st1)
+     | (.raise _, st1) => (.raise ⟨c, "Invalid Error Value".toList⟩, st1)
+     | (.oom, st1) => (.oom, st1)) := by
+  simp only [GenRaise.raiseStage2Gen]
+  cases renderJoined env (f + 1) body st0 with
+  | mk r st1 => cases r <;> rfl
+
+/-- **dtml-raise is `Raise.render` of the source**, for every class table, name, expression, section, namespace and fuel -/
+theorem gen_raise_is_model (env : Env) (fuel : Nat) (cls : Text) (ce : Option Expr) (body : List Blk) (st : St) :
+    GenRaise.raiseGen env fuel cls ce body st = renderBlk env (fuel + 1) (.raise_ cls ce body) st := by
+  cases fuel with
+  | zero => rfl
+  | succ f =>
+    simp only [GenRaise.raiseGen, renderBlk, raiseClass, GenRaise.raiseStage1Gen, GenRaise.convertExceptionType,
+      GenRaise.classNamed]
+    cases ce with
+    | none =>
+      by_cases h : (List.lookup cls env.classes).isSome = true
+      · simp only [h, GenRaise.isNone, if_true, if_false, Bool.false_eq_true]
+        exact raise_tail env f cls none body st _ _
+      · simp only [h, GenRaise.isNone, if_true, if_false, Bool.false_eq_true]
+        exact raise_tail env f cls none body st _ _
+    | some e =>
+      simp only
+      cases evalExpr env f e st with
+      | mk r st' =>
+        cases r with
+        | ok v =>
+          cases v with
+          | exc c m => exact raise_tail env f cls (some e) body st' c m
+          | _ =>
+            simp only [GenRaise.isType, GenRaise.isSubclass, Bool.false_and, Bool.not_false, if_true,
+              GenRaise.upgradeException, GenRaise.raiseStage2Gen]
+            cases renderJoined env (f + 1) body st' with
+            | mk r1 st1 => cases r1 <;> rfl
+        | raise ex =>
+          by_cases h : (List.lookup cls env.classes).isSome = true
+          · simp only [h, GenRaise.isNone, if_true, if_false, Bool.false_eq_true]
+            exact raise_tail env f cls (some e) body st' _ _
+          · simp only [h, GenRaise.isNone, if_true, if_false, Bool.false_eq_true]
+            exact raise_tail env f cls (some e) body st' _ _
+        | ret v =>
+          by_cases h : (List.lookup cls env.classes).isSome = true
+          · simp only [h, GenRaise.isNone, if_true, if_false, Bool.false_eq_true]
+            exact raise_tail env f cls (some e) body st' _ _
+          · simp only [h, GenRaise.isNone, if_true, if_false, Bool.false_eq_true]
+            exact raise_tail env f cls (some e) body st' _ _
+        | oom => rfl
 
 end DTML.Props.C14
